@@ -204,8 +204,9 @@ SCHED_GHOSTS = ['ghost:runs', 'ghost:last']
 contract('Core.SystemManager.execute_systems',
          params={'self': 'ref:SystemManager', 'throw_error': 'bool'},
          requires=[SM_rep, freq_ok],
-         ensures={'C02': [exec_post_running, exec_post_runs], 'C06': [exec_post_not_running]},
-         raises={'ModelCompleteError': dict(when=exec_complete_err, props=['C06'])},
+         ensures={'C02': [exec_post_running, exec_post_not_running, exec_post_runs],
+                  'C06': [exec_post_running, exec_post_not_running]},
+         raises={'ModelCompleteError': dict(when=exec_complete_err, props=['C02', 'C06'])},
          modifies=['self.timestep', 'new:list[ref:System]'] + USER_CODE_MODIFIES + SCHED_GHOSTS,
          loops={0: dict(invariant=[(exec_inv_basic, ['C01', 'C02', 'C06']), (exec_inv_runs, ['C02']),
                                    (exec_inv_last, ['C01'])],
@@ -790,7 +791,7 @@ ENV_POOL_MODS = ['self.model.systems.component_pools', 'store:list[ref:Component
 contract('Core.Environment.add_agent',
          params={'self': 'ref:Environment', 'agent': 'ref:Agent'},
          requires=[Env_rep, env_linked, joiner_ok, env_mirror],
-         ensures={'C04': [env_add_post, Env_rep], 'C03': [env_add_pools, env_mirror]},
+         ensures={'C04': [env_add_post, Env_rep], 'C03': [env_add_post, Env_rep, env_add_pools, env_mirror]},
          raises={'DuplicateAgentError': dict(when=env_add_dup)},
          modifies=['self.agents'] + ENV_POOL_MODS,
          loops={0: dict(invariant=[(env_add_inv, ['C03', 'C04'])], index='p', modifies=ENV_POOL_MODS)},
@@ -837,7 +838,7 @@ def env_remove_inv(self, a_id, old, p):
 contract('Core.Environment.remove_agent',
          params={'self': 'ref:Environment', 'a_id': 'str'},
          requires=[Env_rep, env_linked, env_mirror, leaver_ok],
-         ensures={'C04': [env_remove_post, Env_rep], 'C03': [env_remove_pools, env_mirror]},
+         ensures={'C04': [env_remove_post, Env_rep], 'C03': [env_remove_post, Env_rep, env_remove_pools, env_mirror]},
          raises={'AgentNotFoundError': dict(when=env_remove_unknown)},
          modifies=['self.agents', 'self.model.systems.component_pools', 'store:list[ref:Component]'],
          loops={0: dict(invariant=[(env_remove_inv, ['C03', 'C04'])], index='p',
